@@ -109,22 +109,11 @@ class FileHeaderConfig:
             FileHeaderConfig instance with values from dictionary
         """
         defaults = cls()
-        required_fields = config_dict.get("required_fields", {})
+        required_fields = _required_fields_by_language(config_dict)
+        enforce_atemporal = config_dict.get(
+            "enforce_atemporal", config_dict.get("check_atemporal", True)
+        )
 
-        # Handle both list format (applies to all languages) and dict format (language-specific)
-        if isinstance(required_fields, list):
-            # Simple list format: apply same fields to all languages
-            return cls(
-                required_fields_python=required_fields,
-                required_fields_typescript=required_fields,
-                required_fields_bash=required_fields,
-                required_fields_markdown=required_fields,
-                required_fields_css=required_fields,
-                enforce_atemporal=config_dict.get("enforce_atemporal", True),
-                ignore=config_dict.get("ignore", defaults.ignore),
-            )
-
-        # Dict format: language-specific fields
         return cls(
             required_fields_python=required_fields.get("python", defaults.required_fields_python),
             required_fields_typescript=required_fields.get(
@@ -135,6 +124,29 @@ class FileHeaderConfig:
                 "markdown", defaults.required_fields_markdown
             ),
             required_fields_css=required_fields.get("css", defaults.required_fields_css),
-            enforce_atemporal=config_dict.get("enforce_atemporal", True),
+            enforce_atemporal=enforce_atemporal,
             ignore=config_dict.get("ignore", defaults.ignore),
         )
+
+
+_LANGUAGE_KEYS = ("python", "typescript", "bash", "markdown", "css")
+
+
+def _required_fields_by_language(config_dict: dict) -> dict[str, list[str]]:
+    """Collect the mandatory fields per language from every documented spelling.
+
+    `required_fields` / `mandatory_fields` may be a list (all languages) or a mapping by
+    language; `languages.<name>.mandatory_fields` overrides the list for one language.
+    """
+    fields = config_dict.get("required_fields", config_dict.get("mandatory_fields", {}))
+    if isinstance(fields, list):
+        by_language = {name: fields for name in _LANGUAGE_KEYS}
+    else:
+        by_language = dict(fields) if isinstance(fields, dict) else {}
+
+    languages = config_dict.get("languages")
+    if isinstance(languages, dict):
+        for name, section in languages.items():
+            if isinstance(section, dict) and "mandatory_fields" in section:
+                by_language[name] = section["mandatory_fields"]
+    return by_language
